@@ -26,7 +26,7 @@ def wf_definitions(ctx, inject=None):
     cnames = class_attr_names()
     rules = ["grammar", "variable-group-last", "variable-group-size", "group-size-earlier-attribute",
              "group-size-integer", "group-static", "nested-group-fixed", "ch-sole", "names-unique", "hp-base",
-             "names-public", "names-no-collision", "names-injective"]
+             "names-public", "names-no-collision", "names-injective", "keyword-names-unique"]
     if inject:
         tabs = {k: dict(v) for k, v in tabs.items()}
         tabs["GET"]["CANARY-" + inject] = {"length-field": {"iTOW": "U004", "length": "U001"},
